@@ -5,7 +5,7 @@ from symex import strip, show, is_call, field_path, mentions, decision_variant
 from props import lifecycle as L, evalcore as E
 from props.util import configs, load
 
-LEVEL = 'other'
+LEVEL = 'other'   # FACTS rules + translation validation of the generated debug_inputs / diagnostics arms
 
 
 def written_values(p):
@@ -40,11 +40,9 @@ def run(chk, tier):
         display_mockerror(chk, F, 'R19.1', cfg)
         display_call(chk, F, 'R19.2', cfg)
         pattern_indices(chk, F, 'R19.5', cfg)
-    try:
-        from xpand import rules as X
-        X.c19(chk, tier)
-    except ImportError:
-        pass
+    from xpand import rules as X
+    X.check_traits(chk, tier, chk.seed, {'C19'})
+    X.check_patterns(chk, tier, chk.seed, {'C19'})
 
 
 def display_mockerror(chk, F, rule, cfg):
